@@ -46,3 +46,22 @@ SCALE = [1.0]
 
 def scaled_loss(r, f, x):
     return (r ** 2).mean() * SCALE[0]
+
+
+# ---- a counting spy around any generator: how many batches the solver (or anything else) has drawn.
+# Defined here (importable module) so that dill pickles the class by reference and the instance,
+# its inner generator and the count, by value.
+class CountingGenerator:
+    def __init__(self, inner, **attrs):
+        self.inner = inner
+        self.size = inner.size
+        self.count = 0
+        for k, v in attrs.items():          # t_min / t_max / xy_min / xy_max: what PretrainedSolver.load reads
+            setattr(self, k, v)
+
+    def get_examples(self):
+        self.count += 1
+        return self.inner.get_examples()
+
+    def __repr__(self):
+        return f'CountingGenerator({self.inner!r}, count={self.count})'
